@@ -608,8 +608,10 @@ open Tickit.RBFlushX in
     terminal's reading of a character cell (`char_encoding`, `char_cell_on_vt`), the terminal's reading of the driver's
     goto, erase (outside reverse video) and text bytes as the cursor movement, ECH (+ CUF) and printed code points they
     stand for (`goto_on_vt`, `erase_on_vt`, `text_on_vt`), and, on the grid terminal, the whole statement
-    (`flush_spec_screen`).  Missing: the reading of the SGR bytes as the pen (C10 proves it for its own interpreter), and
-    the composition of the per-request readings with `flush_spec_screen`. -/
+    (`flush_spec_screen`); the reading of the SGR bytes as the pen (`sgr_on_vt`, `setpen_on_vt`), the simulation between
+    the grid terminal and the VT screen request by request (`request_on_vt_is_grid_step`) and over a whole request list,
+    and the statement itself under two extra hypotheses about the request list and the erase cells
+    (`C04_xterm_screen_partial` below, which also says what is still missing). -/
 def C04_xterm_screen : Prop :=
   ∀ (caps : TermPen.Caps) (n : Nat) (rb : RB) (s : XScreen) (cache : Pen),
     FlushWF rb → (∀ l c, s.lines ≤ l ∨ s.cols ≤ c → want rb l c = .keep) →
